@@ -35,8 +35,11 @@ TRUSTED_BASE = [
     "object identity of nodes/elements is modelled away: nodes are persistent values, elements are (key, value id) pairs",
 ]
 ASSUMPTIONS = [
-    "copy-on-write (creator tokens, maybe_cow) is not modelled; clone isolation is true by construction in the model and is "
-    "established for the code by the correspondence histories and the isolation oracle only (tie-only)",
+    "the copy-on-write mechanism is modelled twice: Model.BTree (persistent values; L1-L5) and Model.BTreeCow (heap of cells with "
+    "creator tokens, copying exactly where the code copies); the refinement between them (cow_step_refines, cow_run_refines, "
+    "clone_isolated_mech, cow_writes_only_own_cells) is proved, both are tied to the code by correspondence (c19.hist, c19.cow)",
+    "the session-level refinement theorem is stated for the repaired _delete (collapse_always = true, the code after f381413); "
+    "the per-operation simulation lemmas hold for both variants",
     "cursors that are not registered with their tree (no `with` block) and are used across a mutation are undefined "
     "behaviour by the library's documentation and are not exercised",
     "keys are natural numbers (any totally ordered key type behaves the same; the code uses only ==, <, >)",
@@ -52,7 +55,8 @@ LEVEL = {
     "note": "Layers L1-L5 are proved (lean/Props/C19.lean). The deletion layer exposes a defect of the code as shipped (an internal "
             "root left without elements by a deletion of an absent key, later IndexError): full theorem for the intended root "
             "collapse, guarded theorem + counterexamples for the shipped one; the harness probes which variant the code implements. "
-            "Clone isolation and frozen-rejects are immediate in the model (persistent values) and rest on the tie.",
+            "Clone isolation is proved at mechanism level on a second model (heap of cells with creator tokens) that is itself tied to the "
+            "code by comparing node identities and creator tokens after every mutation.",
     "technique": "Lean 4 proof (refinement + inductive invariant over height) + model-vs-implementation correspondence on histories",
     "design_ref": "DESIGN.md §7 C19",
 }
@@ -478,6 +482,75 @@ class Runner:
             if frozen:
                 self.fail("C19/frozen/accepted-mutation", f"op {at} {tok}: mutation of a frozen tree did not raise Immutable", at)
             return self.after_mutation(h, at, res)
+        if op in ("O", "R") and len(a) == 2:
+            # the mapping / set API that mutates: d.pop(k); del d[k] / s.remove(k)
+            h, k = a
+            if h >= len(T):
+                return "!"
+            tr, ref = T[h], self.refs[h]
+            frozen = tr._immutable
+            hb, nn = 0, tr.root
+            while not nn.is_leaf and nn.children and hb < 64:
+                nn = nn.children[0]
+                hb += 1
+            self.height_before = hb
+            res = None
+            try:
+                if op == "O":
+                    if self.is_set:
+                        e = tr.get_element(k)  # BTreeSet.pop() takes no key: pop of a member through discard
+                        if e is None:
+                            raise KeyError(k)
+                        tr.discard(k)
+                        val = getattr(e, "_value", 0)
+                    else:
+                        val = tr.pop(k)
+                    if k not in ref or ref[k] != val:
+                        self.fail("C19/api/pop-value", f"op {at} {tok}: pop returned {val}, reference {ref.get(k)}", at)
+                    ref.pop(k, None)
+                    res = str(val)
+                else:
+                    if self.is_set:
+                        tr.remove(k)
+                    else:
+                        del tr[k]
+                    if k not in ref:
+                        self.fail("C19/api/delete-absent-accepted", f"op {at} {tok}: no KeyError for an absent key", at)
+                    ref.pop(k, None)
+                    res = "ok"
+            except KeyError:
+                if k in ref:
+                    self.fail("C19/api/keyerror-present", f"op {at} {tok}: KeyError for a present key", at)
+                res = "KE"
+            except btree.Immutable:
+                if not frozen:
+                    self.fail("C19/frozen/spurious", f"op {at} {tok}: Immutable raised on a mutable tree", at)
+                return self.after_mutation(h, at, "IMM", changed_ok=False)
+            if frozen and res != "KE":
+                self.fail("C19/frozen/accepted-mutation", f"op {at} {tok}: mutation of a frozen tree did not raise Immutable", at)
+            return self.after_mutation(h, at, res, changed_ok=not frozen)
+        if op == "g" and len(a) == 2:
+            h, k = a
+            if h >= len(T):
+                return "!"
+            got = k in T[h]
+            if got != (k in self.refs[h]):
+                self.fail("C19/api/contains", f"op {at} {tok}: `in` gives {got}, reference {k in self.refs[h]}", at)
+            return "1" if got else "0"
+        if op in ("K", "V") and len(a) == 1:
+            h = a[0]
+            if h >= len(T):
+                return "!"
+            tr, ref = T[h], self.refs[h]
+            if op == "K":
+                got = list(tr) if self.is_set else list(tr.keys())
+                exp = sorted(ref)
+            else:
+                got = [getattr(e, "_value", 0) for e in self.items_of(tr)] if self.is_set else list(tr.values())
+                exp = [ref[k] for k in sorted(ref)]
+            if got != exp:
+                self.fail("C19/api/" + ("keys" if op == "K" else "values"), f"op {at} {tok}: {got} != reference {exp}", at)
+            return "[" + ",".join(str(x) for x in got) + "]"
         if op == "G" and len(a) == 2:
             h, k = a
             if h >= len(T):
@@ -678,17 +751,18 @@ def collapse_always() -> int:
     return _VARIANT
 
 
-COW_OPS = "IDXGCF"
+COW_OPS = "IDXGCFOR"
 
 
 def cow_line(case):
     """the same history for the mechanism-level model (heap of nodes with creator tokens): cursor and listing ops,
     which never touch a node, are left out"""
-    return f"c19.cow {case['t']} {case['io']} {collapse_always()} " + " ".join(t for t in case["ops"] if t[:1] in COW_OPS)
+    return (f"c19.cow {case['t']} {case['io']} {collapse_always()} {1 if case.get('set') else 0} "
+            + " ".join(t for t in case["ops"] if t[:1] in COW_OPS))
 
 
 def op_line(case):
-    return f"c19.hist {case['t']} {case['io']} {collapse_always()} " + " ".join(case["ops"])
+    return f"c19.hist {case['t']} {case['io']} {collapse_always()} {1 if case.get('set') else 0} " + " ".join(case["ops"])
 
 
 def run_impl(case):
@@ -880,15 +954,29 @@ class Gen:
     def queries(self, h, universe, n=1):
         rng = self.rng
         for _ in range(n):
-            m = rng.below(10)
+            m = rng.below(14)
             if m < 5:
                 self.ops.append(f"G,{h},{rng.below(universe + 1)}")
             elif m < 7:
                 self.ops.append(f"L,{h}")
             elif m < 8:
                 self.ops.append(f"M,{h}")
-            else:
+            elif m < 10:
                 self.ops.append(f"T,{h}")
+            elif m < 12:
+                self.ops.append(f"g,{h},{rng.below(universe + 1)}")
+            elif m < 13:
+                self.ops.append(f"K,{h}")
+            else:
+                self.ops.append(f"K,{h}" if self.is_set else f"V,{h}")
+
+    def api_delete(self, h, k):
+        """del d[k] / s.remove(k) / d.pop(k)"""
+        op = "R" if (self.is_set or self.rng.chance(1, 2)) else "O"
+        self.ops.append(f"{op},{h},{k}")
+        if not self.frozen[h]:
+            self.present[h].discard(k)
+            self.pairs[h].pop(k, None)
 
     def freeze_and_clone(self):
         rng = self.rng
@@ -958,7 +1046,11 @@ def gen_history(rng, size_class=None):
                     g.ins(h, k)
                 elif m < 8:
                     pres = sorted(g.present[h])
-                    g.dele(h, rng.choice(pres) if pres and rng.chance(4, 5) else k)
+                    kk = rng.choice(pres) if pres and rng.chance(4, 5) else k
+                    if rng.chance(1, 4):
+                        g.api_delete(h, kk)
+                    else:
+                        g.dele(h, kk)
                 elif m < 9:
                     g.queries(h, universe)
                 elif use_cursors:
@@ -1173,7 +1265,7 @@ def replay(ctx: Ctx, obj: dict):
 def impl_of_op(op: str):
     f = op.split()
     if f[0] == "c19.hist":
-        return run_impl({"kind": "hist", "t": int(f[1]), "io": int(f[2]), "set": False, "ops": f[4:]})[1]
+        return run_impl({"kind": "hist", "t": int(f[1]), "io": int(f[2]), "set": f[4] == "1", "ops": f[5:]})[1]
     return "?"
 
 
@@ -1187,12 +1279,15 @@ PROVED_LAYERS = {
         "L4 in_order_opt_refines (the optimisation changes the shape only)",
         "L5 cursor_boundaries, cursor_seek_refines, cursor_next_refines, cursor_prev_refines, cursor_unpark_refines "
         "(cursors kept across arbitrary mutations resume at the bound of their anchor), cursor_bound_unique",
-        "frozen_rejects, clone_isolated (immediate in the model: persistent values)",
+        "frozen_rejects, clone_isolated (immediate in the persistent model)",
+        "mechanism level (Model.BTreeCow): cow_step_refines, cow_run_refines (any interleaving of insert/delete/clone/freeze/new on any "
+        "number of trees refines the persistent model), clone_isolated_mech, cow_writes_only_own_cells",
+        "API level: dict_reads_refine, dict_writes_refine (getitem/get/in/len/keys/items/values, setitem/delitem/pop), set_refines "
+        "(in/len/iteration/add/discard/remove), mutation_parks_registered, registered_cursor_resumes",
         "consts_agree (_MIN/_MAX at t = 3..8 and the t >= 3 guard regenerated from the working tree)",
     ],
     "tie_only": [
-        "that the registered cursors of a tree are parked by every mutation (BTree.cursors / _check_mutable_and_park) is part of the driver glue, not of a theorem",
-        "copy-on-write isolation of the real nodes (creator tokens): correspondence histories + isolation oracle",
+        "garbage (cells dropped from every tree) and Python object identity of elements are outside the heap model",
         "delete_exact error paths (ValueError): correspondence only",
     ],
 }
